@@ -1,5 +1,6 @@
 #!/bin/bash
-# usage: seed_take.sh <worktree-id> <seed-id> <Cnn>: confirm a sub-agent's change (seed_confirm.sh), then run all checks on a scratch copy
+# usage: seed_take.sh <worktree-id> <seed-id> <Cnn>: confirm a sub-agent's change (seed_confirm.sh), then run all checks on a
+# scratch copy of /repo HEAD with the patch (3-way tolerant: falls back to `patch` with fuzz when HEAD moved on)
 WT=/tmp/seedwork/$1; ID=$2; PROP=$3
 /verif/tools/seed_confirm.sh $WT $ID $PROP | tail -2
 echo "--- checks on $ID"
